@@ -592,7 +592,7 @@ def h_str(neg: bool, ipi: int, b0: bool, b1: bool, b2: bool, b3: bool, b4: bool,
         s = obj.join(", ")
         parts = s.split(", ")
     else:
-        s = format(obj, "")
+        s = obj.__format__("")      # (the format() builtin is intercepted by CrossHair and deep-realises the object)
         parts = s.split(" ")
     check(len(parts) == 3, "three components", s)
     _check_canonical(parts[0], text, f"{cls} {form}")
